@@ -166,16 +166,45 @@ Lemma t1_shape_constants :
   frame_prefix_read_exact = true /\ stream_full_queue_retries = true /\ svc_error_bypasses_middleware = true.
 Proof. repeat split; reflexivity. Qed.
 
-(* the cookies middleware's own rejections (malformed COOKIE, denied address without cookie) *)
-Lemma top_cookie_reject_refuted : cookie_reject_echoes_question = false ->
-  forall rq cfg k r, hint_ok cfg -> cookie_reject_response rq cfg k = Ok r ->
-  m_id r = rq_id rq /\ m_qs r = [].
-Proof. unfold cookie_reject_response. intros ->. intros rq cfg k r. apply cookie_reject_no_question. Qed.
-
-Lemma top_cookie_reject_echo : cookie_reject_echoes_question = true ->
-  forall rq cfg k r, hint_ok cfg -> Forall wf_q (firstn 1 (rq_qs rq)) ->
+(* the cookies middleware's own rejections (malformed COOKIE, denied address without
+   cookie) carry the request's id and first question (fix ce095ac; [reflexivity]
+   fails if they are built from an empty builder again) *)
+Lemma top_cookie_reject_echo rq cfg k r : hint_ok cfg -> Forall wf_q (firstn 1 (rq_qs rq)) ->
   cookie_reject_response rq cfg k = Ok r ->
   m_id r = rq_id rq /\ m_qs r = firstn 1 (rq_qs rq) /\ mlen r <= 282.
 Proof.
-  unfold cookie_reject_response. intros ->. rewrite eq_true. intros rq cfg k r. apply cookie_reject_echo.
+  assert (F : cookie_reject_echoes_question = true) by reflexivity.
+  unfold cookie_reject_response. rewrite F, eq_true. apply cookie_reject_echo.
+Qed.
+
+(* accept errors do not end the accept loop: every connection is served *)
+Lemma top_accept_loop evs : accept_loop evs = map is_conn evs.
+Proof.
+  assert (F : accept_error_stops_server = false) by reflexivity.
+  unfold accept_loop. rewrite F. apply accept_loop_serves_all.
+Qed.
+
+(* the hand-over: the response leaves truncated (TC) exactly when, after the EDNS
+   fix-ups, it is longer than the property text's limit - the size negotiated by
+   EdnsMiddlewareSvc is the one MandatoryMiddlewareSvc truncates to *)
+Lemma edns_post_b2 b m : m_b2 (edns_post b m) = m_b2 m.
+Proof.
+  unfold edns_post. destruct b; cbn [negb]; [|reflexivity].
+  destruct (first_opt (m_ar m)); [reflexivity|]. destruct (65535 <? mlen m + 11); reflexivity.
+Qed.
+
+Lemma top_hint_handover rq cfg m r : hint_ok cfg -> mlen m <= 65535 ->
+  udp_response rq cfg m = Ok r ->
+  tc_set (m_b2 r) = true <->
+  (text_limit (rq_client rq) cfg < mlen (edns_post (is_some (rq_client rq)) m) \/ tc_set (m_b2 m) = true).
+Proof.
+  intros Hk Hl. unfold udp_response, udp_response_gen.
+  assert (FS : hint_shared_between_clones = true) by reflexivity. rewrite FS. unfold handed_over.
+  assert (F : FX = true) by reflexivity. rewrite F.
+  pose proof (limit_is_text_when_fixed (rq_client rq) cfg Hk) as L. unfold udp_limit_gen in L.
+  destruct (hint_after_edns (rq_client rq) cfg) as [h| | |] eqn:E; try discriminate.
+  cbn [bind] in *. inversion L as [L']. intros R; inversion R; subst r; clear R.
+  set (m' := edns_post (is_some (rq_client rq)) m).
+  assert (Hl' : mlen m' <= 65535) by (apply edns_post_len; exact Hl).
+  rewrite (tc_iff_gen true FQ EQ rq h m' Hl'). rewrite L'. subst m'. rewrite edns_post_b2. reflexivity.
 Qed.
